@@ -18,6 +18,6 @@ CONSTANTS
   HostileSteps = 2
   AllScopes = FALSE
 INVARIANTS FTypeOK
-PROPERTIES Confined EqualsRestriction ListingExact ScopesRewritten SubFailedListingIsPrefix
+PROPERTIES Confined EqualsRestriction ListingExact ScopesRewritten SubFailedListingIsPrefix BackendFaultIsResult
 VIEW FView
 CHECK_DEADLOCK FALSE
